@@ -34,11 +34,11 @@ PROPS = {
         "runs": runs(
             [T("exhaust2", 23232), T("general", 1500, Q), T("resize", 1200), T("alt", 900), T("parser", 900), T("scrollback", 600),
              ("chunk", "general", 450, []), ("stream", "scrollback", 450, []), ("dump", "general", 300, []),
-             ("text", "general", 600, []), ("stress", "stress", 192, [])],
+             ("text", "general", 600, []), ("stress", "stress", 192, []), ("vsweep", "vsweep", 0, [])],
             [T("exhaust3", 1022208), T("general", 20000, Q), T("resize", 12000), T("alt", 8000), T("parser", 8000), T("scrollback", 4000),
              T("edit", 4000), T("scroll", 4000), T("save", 3000), T("tabs", 3000),
              ("chunk", "general", 4000, []), ("stream", "scrollback", 4000, []), ("dump", "general", 3000, []),
-             ("text", "general", 5000, []), ("stress", "stress", 2000, [])]),
+             ("text", "general", 5000, []), ("stress", "stress", 2000, []), ("vsweep", "vsweep", 0, [])]),
         "cone": ALLP, "proj": ["panic.", "hang."],
     },
     "C02": {
@@ -50,8 +50,8 @@ PROPS = {
     },
     "C03": {
         "runs": runs(
-            [("sweep", "sweep", 0, []), T("parser", 3000), T("sgr", 1200)],
-            [("sweep", "sweep", 0, []), T("parser", 30000), T("sgr", 10000), T("inert", 10000), T("general", 10000)]),
+            [("sweep", "sweep", 0, []), ("vsweep", "vsweep", 0, []), T("parser", 3000), T("sgr", 1200)],
+            [("sweep", "sweep", 0, []), ("vsweep", "vsweep", 0, []), T("parser", 30000), T("sgr", 10000), T("inert", 10000), T("general", 10000)]),
         "cone": ALLP,
         "proj": PARSER_PROJ,
         "exhaustive_sweep": True,
@@ -61,7 +61,7 @@ PROPS = {
                 "on generated streams; memorylessness and SGR decoding checked on the implementation",
     },
     "C04": {
-        "runs": runs([T("exhaust2", 23232), T("print", 2700), T("general", 900)], [T("exhaust3", 1022208), T("print", 40000), T("general", 15000), T("resize", 8000)]),
+        "runs": runs([T("exhaust2", 23232), T("print", 2700), T("general", 900), ("vsweep", "vsweep", 0, [])], [T("exhaust3", 1022208), T("print", 40000), T("general", 15000), T("resize", 8000), ("vsweep", "vsweep", 0, [])]),
         "cone": PRINT_FNS, "proj": VIEW_PROJ + ["charset", "modes", "pen"],
     },
     "C05": {
@@ -83,7 +83,7 @@ PROPS = {
     },
     "C09": {
         "runs": runs([("text", "general", 4500, []), T("print", 900, Q)],
-                     [("text", "general", 80000, []), T("print", 15000, Q)]),
+                     [("text", "general", 80000, []), T("print", 15000, Q), ("vsweep", "vsweep", 0, [])]),
         "cone": ["Print", "Cr", "Lf", "L", "Q", "text"], "proj": VIEW_PROJ + ["text", "out."],
     },
     "C10": {
@@ -99,9 +99,9 @@ PROPS = {
     },
     "C12": {
         "runs": runs([("chunk", "general", 1800, []), ("chunk", "parser", 900, []), ("chunk", "alt", 1200, []),
-                      ("chunk", "scroll", 2700, []), ("chunk", "scrollback", 1500, [])],
+                      ("chunk", "scroll", 2700, []), ("chunk", "scrollback", 1500, []), ("vsweep", "vsweep", 0, [])],
                      [("chunk", "general", 25000, []), ("chunk", "parser", 12000, []), ("chunk", "alt", 12000, []),
-                      ("chunk", "scroll", 25000, []), ("chunk", "scrollback", 12000, [])]),
+                      ("chunk", "scroll", 25000, []), ("chunk", "scrollback", 12000, []), ("vsweep", "vsweep", 0, [])]),
         "cone": ["L"], "proj": ALLP,
     },
     "C13": {
@@ -139,7 +139,7 @@ PROPS = {
     },
     "C20": {
         "runs": runs([("sweep", "sweep", 0, []), T("inert", 3600), T("parser", 1200)],
-                     [("sweep", "sweep", 0, []), T("inert", 50000), T("parser", 20000)]),
+                     [("sweep", "sweep", 0, []), ("vsweep", "vsweep", 0, []), T("inert", 50000), T("parser", 20000)]),
         "cone": ALLP, "proj": PARSER_PROJ + ["panic."],
         "exhaustive_sweep": True,
     },
